@@ -15,8 +15,9 @@ type Frame struct {
 	Idx         int
 	Locals      map[ssa.Value]Value
 	Defers      []*deferred
-	Call        ssa.Instruction // call instruction in the caller frame (nil for entry)
-	Bind        []Value         // free variables (closures)
+	Call        ssa.Instruction          // call instruction in the caller frame (nil for entry)
+	Bind        []Value                  // free variables (closures)
+	Peeled      map[*ssa.BasicBlock]bool // loop headers whose first (peeled) iteration is being executed
 	LoopHit     map[*ssa.BasicBlock]int
 	Cut         map[*ssa.BasicBlock]bool // loop headers already cut on this path
 	InDefer     bool
@@ -85,6 +86,12 @@ func (st *State) Clone() *State {
 		nf.LoopHit = make(map[*ssa.BasicBlock]int, len(f.LoopHit))
 		for k, v := range f.LoopHit {
 			nf.LoopHit[k] = v
+		}
+		if f.Peeled != nil {
+			nf.Peeled = make(map[*ssa.BasicBlock]bool, len(f.Peeled))
+			for k, v := range f.Peeled {
+				nf.Peeled[k] = v
+			}
 		}
 		nf.Cut = make(map[*ssa.BasicBlock]bool, len(f.Cut))
 		for k, v := range f.Cut {
